@@ -9,10 +9,13 @@
    Status: interleave_disjoint (generic commutation) FULL; docs_disjoint_jobs FULL (also covers initialising
    DIFFERENT jobs); doc_read_after_write FULL; init_race_direct_write REFUTED (the property rests on the
    backend's default; known finding 1 is its replay on the real code with thread support switched off);
-   init_race_safe FULL (n actors, same or different jobs, temp-file protocol).
+   init_race_safe FULL (n actors, same or different jobs, temp-file protocol);
+   doc_reader_never_torn FULL (a writer and a reader of ONE document — job or project document — in two
+   processes, every schedule; temp-file protocol); doc_direct_write_torn REFUTED for in-place document writes
+   (neither write_concern nor thread support: what a changed default would give; seeded trial C12-5).
    What the model cannot exhibit: preemption inside a system call, NFS semantics, page-cache visibility
    between hosts; os.replace is assumed atomic. *)
-From SV Require Import Base Json MD5 Canon FS Proc Crash CorrC11 CorrC12 C12Proofs C12Race.
+From SV Require Import Base Json MD5 Canon FS Proc Crash CorrC11 CorrC12 C12Proofs C12Race C12Doc.
 
 Theorem C12_sequential_is_empty_schedule : forall A f (ps : list (prog A)), interleave [] f ps = sequential f ps.
 Proof. exact interleave_nil. Qed.
@@ -52,6 +55,35 @@ Theorem C12_doc_read_after_write : forall frepr tag (f f1 : fs) (file : path) (v
   snd (run (doc_load file (fun r => match r with inl d => Ret d | inr e => Raise e end)) g) = inl v.
 Proof. exact doc_read_after_write_lemma. Qed.
 Print Assumptions C12_doc_read_after_write.
+
+(* A process assigns to a document (any file [dir/name] holding a complete document v0: a job document or
+   the project document) with the temp-file + os.replace protocol while ANOTHER process reads the same
+   document.  Under EVERY schedule — the reader's read at any position between the writer's file-system calls —
+   both complete without error, the reader sees the old or the new content (never a torn one), the new
+   document is installed and no temp file is left. *)
+Theorem C12_doc_reader_never_torn : forall frepr tag dir name f0 v0 v c0,
+  get f0 (dir ++ [name]) = Some (File c0) -> c_json c0 = Some v0 ->
+  get f0 dir = Some Dir ->
+  get f0 (tmpname tag (dir ++ [name])) <> Some Dir ->
+  forall sched,
+  exists f1 d, interleave sched f0 [doc_writer frepr tag dir name v; doc_reader dir name] = (f1, [inl v; inl d]) /\
+               (d = v0 \/ d = v) /\
+               get f1 (dir ++ [name]) = Some (File (jcontent frepr v)) /\
+               get f1 (tmpname tag (dir ++ [name])) = None.
+Proof. exact doc_reader_never_torn_lemma. Qed.
+Print Assumptions C12_doc_reader_never_torn.
+
+(* REFUTED for a document written in place (truncating open, write, close on the file itself — what signac
+   does when a document is built without write_concern AND thread support is off): the reader scheduled between
+   the open and the write fails with a decode error; the same schedule with the temp-file protocol reads the
+   old content *)
+Theorem C12_doc_direct_write_torn_refuted :
+  snd (interleave dw_sched dw_f0 [doc_writer_direct dw_repr [97%N] dw_file dw_v; doc_reader [[112%N]] DOCF])
+    = [inl dw_v; inr (PExn EValueError)]
+  /\ snd (interleave dw_sched dw_f0 [doc_writer dw_repr [97%N] [[112%N]] DOCF dw_v; doc_reader [[112%N]] DOCF])
+    = [inl dw_v; inl dw_v0].
+Proof. exact doc_direct_write_torn_witness. Qed.
+Print Assumptions C12_doc_direct_write_torn_refuted.
 
 (* with in-place writes (JSON thread support off) two initialisers of one job can collide: the second
    finds the file present but empty, skips its own save and fails; with the temp-file protocol the same
